@@ -1,3 +1,18 @@
 import QlibcModel.Props.C12
 #print axioms Qlibc.Props.C12.stored_bytes_exact
 #print axioms Qlibc.Props.C12.step_depends_on_values_only
+#print axioms Qlibc.Props.C12Mem.inv_preserved
+#print axioms Qlibc.Props.C12Mem.owned_disjoint
+#print axioms Qlibc.Props.C12Mem.caller_holds
+#print axioms Qlibc.Props.C12Mem.observations_determined
+#print axioms Qlibc.Props.C12Mem.noninterference
+#print axioms Qlibc.Props.C12Mem.noninterference_erase
+#print axioms Qlibc.Props.C12Mem.noninterference_from_init
+#print axioms Qlibc.Props.C12Mem.put_get_reads_bytes_at_put_time
+#print axioms Qlibc.Props.C12Mem.copy_survives
+#print axioms Qlibc.Props.C12Mem.lib_never_faults
+#print axioms Qlibc.Props.C12Mem.fault_is_callers
+#print axioms Qlibc.Props.C12Mem.no_interleaving_faults
+#print axioms Qlibc.Props.C12Mem.nocopy_aliases
+#print axioms Qlibc.Props.C12Mem.release_frees_all
+#print axioms Qlibc.Props.C12Mem.release_frees_all_reachable
